@@ -130,7 +130,7 @@ TRACE_CFG = """SPECIFICATION TraceSpec
 CONSTANTS
     Clients = {%(clients)s}
     Users = {%(users)s}
-    Pws = {"p1", "p2", "p3", "p4"}
+    Pws = {%(pws)s}
     Sets = {1, 2, 3}
     Default = %(default)d
     PolicyOK = {%(policyok)s}
@@ -185,8 +185,10 @@ def validate(ctx, events, mode, name, default=2, policyok=None):
     if policyok is None or (policyok and "/" not in list(policyok)[0]):     # tags only: the verdict does not depend on the user
         tags = policyok if policyok is not None else ("p1", "p2", "p3")
         policyok = ["%s/%s" % (u, t) for u in users for t in tags]
+    pws = {"p1", "p2", "p3", "p4"} | {e["p"] for e in events if e.get("p")} | {f.get("pw") for e in events if e["ev"] in ("reset", "idle")
+                                                                                for f in e["files"].values() if f.get("pw")}
     cfg = TRACE_CFG % {"clients": q(clients), "users": q(users), "default": default,
-                       "policyok": q(policyok), "mode": mode}
+                       "policyok": q(policyok), "mode": mode, "pws": q(sorted(pws))}
     res = ctx.run_tlc("MC_TraceAgent.tla", "trace.cfg", workers=1, timeout=900, name="trace-" + name,
                       defines={"trace.ndjson": trace, "trace.cfg": cfg})
     hwm = None
